@@ -6,6 +6,7 @@ import (
 	"fmt"
 	"runtime"
 	"sort"
+	"strconv"
 	"strings"
 	"sync"
 	"testing"
@@ -159,6 +160,18 @@ func c45Names2(segs []Segment) []string {
 
 type c45Viol struct{ key, detail string }
 
+func c45SameStrings(a, b []string) bool {
+	if len(a) != len(b) {
+		return false
+	}
+	for i := range a {
+		if a[i] != b[i] {
+			return false
+		}
+	}
+	return true
+}
+
 // c45Check runs the real ExplodeXML on one case and returns the violation (if any) and the
 // outcome signature parts.
 func c45Check(raw []byte, ref []c45RefSeg, hasVoid bool, masks map[string]uint) (v *c45Viol, sig string, nontrivial bool) {
@@ -199,7 +212,7 @@ func c45Check(raw []byte, ref []c45RefSeg, hasVoid bool, masks map[string]uint) 
 		want[i] = s.Name
 	}
 	got := c45Names2(res.Segments)
-	if strings.Join(got, ",") != strings.Join(want, ",") {
+	if !c45SameStrings(got, want) {
 		key := "segments-order"
 		if len(got) != len(want) {
 			key = "segments-count"
@@ -224,7 +237,7 @@ func c45Check(raw []byte, ref []c45RefSeg, hasVoid bool, masks map[string]uint) 
 			wantNames[j] = ref[i].Name
 		}
 		gotNames := c45Names2(actual[r])
-		if strings.Join(gotNames, ",") != strings.Join(wantNames, ",") {
+		if !c45SameStrings(gotNames, wantNames) {
 			// classify: are all missing names also configured for an earlier route?
 			key := "routed-list-mismatch"
 			if len(gotNames) < len(wantNames) {
@@ -286,8 +299,17 @@ func c45Check(raw []byte, ref []c45RefSeg, hasVoid bool, masks map[string]uint) 
 			return &c45Viol{"routed-fields-mismatch" + suffix, fmt.Sprintf("segment %d (%s) Fields = %v, direct children with non-empty text = %v", i, s.Name, gotF, s.Fields)}, "fields", true
 		}
 	}
-	sig = fmt.Sprintf("ok n=%d routes=%v fields=%d", len(ref), counts, fieldTotal)
-	return nil, sig, routedTotal > 0
+	sb := make([]byte, 0, 48)
+	sb = append(sb, "ok n="...)
+	sb = strconv.AppendInt(sb, int64(len(ref)), 10)
+	sb = append(sb, " routes="...)
+	for _, c := range counts {
+		sb = strconv.AppendInt(sb, int64(c), 10)
+		sb = append(sb, ',')
+	}
+	sb = append(sb, " fields="...)
+	sb = strconv.AppendInt(sb, int64(fieldTotal), 10)
+	return nil, string(sb), routedTotal > 0
 }
 
 func c45SegEqual(a, b Segment) bool {
@@ -344,7 +366,6 @@ func c45RoutesJSON(masks map[string]uint) map[string][]string {
 
 type c45Family struct {
 	name     string
-	maxNodes int
 	texts    []int    // per-element text alphabet (indices into c45Texts)
 	attrs    []bool   // per-element attribute alphabet
 	subsets  []uint   // per-present-name route-subset alphabet (nil => use global configs)
@@ -420,20 +441,33 @@ func TestVerifC45(t *testing.T) {
 	for i := range all16 {
 		all16[i] = uint(i)
 	}
-	nRouting, nContent := 3, 3
-	if vh.Thorough() {
-		nRouting, nContent = 4, 4
+	routing := &c45Family{name: "routing", texts: []int{1}, attrs: []bool{false}, subsets: all16}
+	content := &c45Family{name: "content", texts: []int{0, 1, 2}, attrs: []bool{false, true}, subsets: []uint{0, 1, 8}}
+	shape := &c45Family{name: "shape", texts: []int{1}, attrs: []bool{false}, global: []string{"none", "all->Items", "all->all4"}}
+	// blocks are enumerated in this order (smallest first; a deadline cap can only cut the tail)
+	type block struct {
+		fam    *c45Family
+		n      int // exact number of elements
+		nnames int // the first nnames entries of c45Names
 	}
-	fams := []*c45Family{
-		{name: "routing", maxNodes: nRouting, texts: []int{1}, attrs: []bool{false}, subsets: all16},
-		{name: "content", maxNodes: nContent, texts: []int{0, 1, 2}, attrs: []bool{false, true}, subsets: []uint{0, 1, 8}},
-		{name: "shape", maxNodes: 5, texts: []int{1}, attrs: []bool{false}, global: []string{"none", "all->Items", "all->all4"}},
+	var blocks []block
+	for n := 1; n <= 3; n++ {
+		blocks = append(blocks, block{routing, n, 6}, block{content, n, 6})
+	}
+	for n := 1; n <= 5; n++ {
+		blocks = append(blocks, block{shape, n, 6})
+	}
+	maxEl := map[string]string{"routing": "<=3 elements, 6 names", "content": "<=3 elements, 6 names", "shape": "<=5 elements, 6 names"}
+	if vh.Thorough() {
+		blocks = append(blocks, block{routing, 4, 4}, block{content, 4, 4})
+		maxEl["routing"] += "; 4 elements, names {A,B,ITEM,LINK}"
+		maxEl["content"] += "; 4 elements, names {A,B,ITEM,LINK}"
 	}
 	rep.SetInfo("names", c45Names)
 	rep.SetInfo("texts", c45Texts)
 	rep.SetInfo("max_depth", 3)
-	rep.SetInfo("max_elements", map[string]int{"routing": nRouting, "content": nContent, "shape": 5})
-	rep.SetInfo("route_subsets", map[string]any{"routing": "all 16 subsets of {Items,Partners,Statuses,Dates} per present name", "content": "{none},{Items},{Dates} per present name", "shape": fams[2].global})
+	rep.SetInfo("elements", maxEl)
+	rep.SetInfo("route_subsets", map[string]any{"routing": "all 16 subsets of {Items,Partners,Statuses,Dates} per present name", "content": "{none},{Items},{Dates} per present name", "shape": shape.global})
 
 	deadline := vh.Deadline()
 	col := &c45Collector{count: map[string]int64{}, best: map[string]c45Found{}}
@@ -469,28 +503,27 @@ func TestVerifC45(t *testing.T) {
 		}()
 	}
 	shapesTotal := 0
-	for _, fam := range fams {
-		for n := 1; n <= fam.maxNodes; n++ {
-			shapes := c45Shapes(n, 3)
-			shapesTotal += len(shapes)
-			rep.Count("shapes_"+fam.name, int64(len(shapes)))
-			for _, sh := range shapes {
-				// one job per (shape, name vector)
-				names := make([]int, n)
-				var rec func(i int)
-				rec = func(i int) {
-					if i == n {
-						seq++
-						jobs <- c45Job{seq: seq << 24, fam: fam, parent: sh, names: append([]int(nil), names...)}
-						return
-					}
-					for k := range c45Names {
-						names[i] = k
-						rec(i + 1)
-					}
+	for _, bl := range blocks {
+		fam, n := bl.fam, bl.n
+		shapes := c45Shapes(n, 3)
+		shapesTotal += len(shapes)
+		rep.Count("shapes_"+fam.name, int64(len(shapes)))
+		for _, sh := range shapes {
+			// one job per (shape, name vector)
+			names := make([]int, n)
+			var rec func(i int)
+			rec = func(i int) {
+				if i == n {
+					seq++
+					jobs <- c45Job{seq: seq << 24, fam: fam, parent: sh, names: append([]int(nil), names...)}
+					return
 				}
-				rec(0)
+				for k := 0; k < bl.nnames; k++ {
+					names[i] = k
+					rec(i + 1)
+				}
 			}
+			rec(0)
 		}
 	}
 	close(jobs)
@@ -580,7 +613,7 @@ func c45RunJob(rep *vh.Report, col *c45Collector, j c45Job) {
 			sg := fam.name + "|" + shapeStr + "|" + sig
 			sigs[sg] = sigs[sg] || nt
 			if v != nil {
-				col.add(v.key, c45Found{seq: j.seq + evals, detail: fam.name + ": " + sb.String() + " :: " + v.detail, replay: c45Case{Family: fam.name, Tree: tree, XML: sb.String(), Routes: c45RoutesJSON(masks)}})
+				col.add(v.key, c45Found{seq: j.seq + evals, detail: fam.name + ": " + strings.ReplaceAll(sb.String(), "\n", "\\n") + " :: " + v.detail, replay: c45Case{Family: fam.name, Tree: tree, XML: sb.String(), Routes: c45RoutesJSON(masks)}})
 			} else if nt && rep.WantSample() {
 				rep.Sample(map[string]any{"family": fam.name, "xml": sb.String(), "routes": c45RoutesJSON(masks), "outcome": sig})
 			}
